@@ -44,8 +44,17 @@ MASKS = {
 @st.composite
 def case_strategy(draw, tier):
     kind = draw(st.sampled_from(
-        ["Wp", "Wp", "Wp", "Wn", "F", "KS", "PP"]))
+        ["Wp", "Wp", "Wp", "Wn", "F", "KS", "PP", "Wt0"]))
     c = {}
+    if kind == "Wt0":
+        from harness import cases as _cases
+        c = draw(_cases.spacetime_case(kinds=("Wt0",),
+                                       orders_p=(2, 4, 4, 6, 8)))
+        Lambda = draw(f(-0.5, 0.5)) if draw(st.booleans()) else 0.0
+        c.update(Lambda=Lambda, matter="Tdown4", vacuum=False,
+                 form=draw(st.sampled_from(["components", "tensors"])),
+                 gdet_first=draw(st.booleans()))
+        return c
     if kind == "Wp":
         order = draw(st.sampled_from([2, 4, 4, 6, 8]))
         N = [draw(st.integers(10, 13)) for _ in range(3)]
@@ -118,6 +127,10 @@ def generic_cases():
                       matter="none", vacuum=True, Lambda=0.0,
                       form="components", gdet_first=True, kind="KS"))
     cases.append(dict(cases[-1], vacuum=False, form="tensors"))
+    from harness import cases as _cases
+    for form in ("components", "tensors"):
+        cases.append(dict(_cases.generic_Wt0(4), Lambda=0.25, form=form,
+                          matter="Tdown4", vacuum=False, gdet_first=False))
     return cases
 
 
